@@ -246,6 +246,62 @@ theorem C13_dns_deadline_value (now : Nat) (timeout : Int) (cb : Cb) (socks : Li
   · rw [(applyCb_tm _ cb).1]; simp
   · rw [(applyCb_tm _ cb).2.1]; exact Or.inl rfl
 
+/-- a process call that leaves the query in progress leaves its overall deadline as it was -/
+theorem process_keeps_deadline (s s' : DnsQuery.State) (now : Nat) (cb : Cb) (socks : List (Bool × Bool)) (to : Option Nat)
+    (h : QInv s) (hcb : CbOk cb) (hst : s.st = .inProgress) (hp : process s now cb socks to = .ok s')
+    (hst' : s'.st = .inProgress) : find s'.tm 0 = find s.tm 0 := by
+  obtain ⟨hc, e0, hf⟩ := mid_core s cb h hst hcb
+  obtain ⟨t0, ht0⟩ := (h.1.2.2.1 hst).2
+  have keep : ∀ u : DnsQuery.State, QCore u → find (updateXpoll u now socks to).tm 0 = find u.tm 0 :=
+    fun u hu => updateXpoll_find0 u now socks to hu.2.1 hu.2.2.2.1
+  simp only [process, hst, if_true, processInProgress] at hp
+  split at hp
+  · rw [e0] at hp
+    simp only [hasExpired, hf, ht0] at hp
+    by_cases hx : now > t0.expiry
+    · simp only [hx, decide_true, Outcome.ok.injEq] at hp
+      -- the query failed in this call: it is not in progress afterwards
+      have := (updateXpoll_inv (failNow (mid s cb)) now socks to (failNow_core _ hc)).2
+      rw [hp] at this; rw [this] at hst'; simp [failNow] at hst'
+    · simp only [hx, decide_false, Outcome.ok.injEq] at hp
+      rw [← hp, keep _ hc, hf]
+  · simp only [Outcome.ok.injEq] at hp
+    rw [← hp, keep _ hc, hf]
+
+/-- one wake-up before the deadline without an answer from c-ares: (time, descriptor set, c-ares timeout) -/
+abbrev Quiet := Nat × List (Bool × Bool) × Option Nat
+
+def runQuiet (s : DnsQuery.State) : List Quiet → Outcome DnsQuery.State
+  | [] => .ok s
+  | (now, socks, to) :: rest =>
+    match process s now .none socks to with
+    | .ok s' => runQuiet s' rest
+    | o => o
+
+/-- **dns.timeout over whole histories**: however often and whenever the owner is woken before the deadline (c-ares' own
+retransmission timers, descriptor events that bring no answer), the query is still in progress with the same deadline;
+the first processing after the deadline fails it, and the result is ENOENT from then on. -/
+theorem C13_dns_times_out_in_every_history (s : DnsQuery.State) (h : QInv s) (hst : s.st = .inProgress)
+    (t0 : Timer) (ht0 : find s.tm 0 = some t0) (qs : List Quiet) (hq : ∀ q ∈ qs, q.1 ≤ t0.expiry)
+    (late : Nat) (hlate : late > t0.expiry) (socks : List (Bool × Bool)) (to : Option Nat) (cap : Nat) :
+    ∃ s1, runQuiet s qs = .ok s1 ∧ s1.st = .inProgress ∧ find s1.tm 0 = some t0 ∧
+      ∃ s2, process s1 late .none socks to = .ok s2 ∧ s2.st = .failed ∧ (result s2 cap).1 = .err Generated.ENOENT ∧
+        ∀ now' cb' socks' to', process s2 now' cb' socks' to' = .ok s2 := by
+  induction qs generalizing s with
+  | nil =>
+    refine ⟨s, rfl, hst, ht0, ?_⟩
+    obtain ⟨s2, e2, f2, r2⟩ := C13_dns_timeout_enoent s late .none socks to h hst t0 ht0 hlate (by intro n; simp) cap
+    exact ⟨s2, e2, f2, r2, fun _ _ _ _ => C13_dns_completed_sticky s2 _ _ _ _ (by rw [f2]; simp)⟩
+  | cons q rest ih =>
+    obtain ⟨now, sk, tmo⟩ := q
+    have hnow : now ≤ t0.expiry := hq (now, sk, tmo) (by simp)
+    obtain ⟨s', e', st'⟩ := C13_dns_no_early_timeout s now sk tmo h hst t0 ht0 hnow
+    obtain ⟨s'', e'', hq''⟩ := process_inv s now .none sk tmo h trivial
+    rw [e'] at e''; cases e''
+    have hd := process_keeps_deadline s s' now .none sk tmo h trivial hst e' st'
+    obtain ⟨s1, r1, rest1⟩ := ih s' hq'' st' (by rw [hd]; exact ht0) (fun q hq' => hq q (by simp [hq']))
+    exact ⟨s1, by simp only [runQuiet, e']; exact r1, rest1⟩
+
 /-! ### C04: the event loop is told -/
 
 /-- while the query is in progress its overall deadline is a live timer, so from the deadline on the timerfd - hence the
